@@ -255,7 +255,7 @@ func (c *vfClient) close() {
 
 // hi performs the handshake.
 func (c *vfClient) hi(bkg bool) *vfFrame {
-	b := map[string]any{"ver": "0.22", "ua": "vf/1.0"}
+	b := map[string]any{"ver": "0.22", "ua": "vf/" + c.name}
 	if bkg {
 		b["bkg"] = true
 	}
@@ -284,4 +284,20 @@ func frameStr(f *vfFrame) string {
 		return "<nil>"
 	}
 	return f.Raw
+}
+
+// tryConnect is connect without panicking: returns nil if the handshake or the login is refused
+// (e.g. the account has been deleted by the workload).
+func (e *vfEnv) tryConnect(name string, uid types.Uid, tok string) *vfClient {
+	c := e.dial(name)
+	c.uid = uid
+	if f := c.hi(false); f == nil || f.code() >= 300 {
+		c.close()
+		return nil
+	}
+	if f := c.loginToken(tok); f == nil || f.code() != 200 {
+		c.close()
+		return nil
+	}
+	return c
 }
